@@ -95,6 +95,14 @@ def judge(rep: Report, res: dict, *, clean: bool) -> None:
                   key=f"{o}:{d.get('why', '')}:{d.get('fw', '')[:20]}:{res['source'][:0]}{len(rep.violations)}")
 
 
+def run_probe(case):
+    name, ctx, src = case
+    res = engine.differential(src, passes=2, hazards=False)
+    out = {"outcome": res["outcome"], "divergence": res.get("divergence"), "exc": res.get("exc"), "cpp": res.get("cpp")}
+    out["diag"] = engine.first_diag_line(res.get("diag") or "") if res.get("diag") else None
+    return out
+
+
 def main() -> int:
     rep = Report(PROP)
     t = tier()
@@ -109,6 +117,29 @@ def main() -> int:
             rep.inconclusive_because(f"case {case} harness error: {res[-300:]}")
             continue
         judge(rep, res, clean=case[1] == "clean")
+    # ---- feature probes: one everyday construct per script, in eight block contexts; rejected is fine, accepted must be preserved
+    from ..gen import probes
+    for case, st, res in run_cases(run_probe, probes.all_probes()):
+        name, ctx, src = case
+        if st != "ok":
+            rep.inconclusive_because(f"probe {name}/{ctx} harness error: {res[-200:]}")
+            continue
+        o = res["outcome"]
+        rep.count("probe:" + o)
+        if o in ("rejected", "py-undefined", "py-budget", "inconclusive"):
+            rep.case(None, False)
+            continue
+        rep.case(f"probe:{name}:{ctx}", o == "equal")
+        if o == "equal":
+            continue
+        w = {"script.py": src, "sketch.cpp": res.get("cpp") or "", "detail.json": json.dumps({k: res.get(k) for k in ("outcome", "divergence", "diag", "exc")}, indent=1, default=str)}
+        d = res.get("divergence") or {}
+        msg = f"feature probe {name} ({ctx}): accepted but {o}: {d.get('why') or res.get('diag') or res.get('exc')} fw={d.get('fw')} py={d.get('py')}"
+        fid = probes.PROBE_FINDINGS.get(name)
+        if fid and fid in rep.open_findings:
+            rep.known(fid, msg, w)
+        else:
+            rep.violation(msg, w, key=f"probe:{name}:{o}")
     witness.check_witnesses(rep)
     rep.rule = ("seeded typed program generator over the documented subset (assign/swap/augassign, arithmetic, "
                 "comparisons, boolean and conditional expressions, abs/min/max/len/int/float/str, f-strings, "
